@@ -7,7 +7,9 @@ MANIFEST = {
     "text": "Lean theorems about the transcription M of src/coap_uri.c, each for all inputs: coap_split_uri / coap_split_proxy_uri "
             "equal the RFC 3986 §3 / RFC 7252 §6 structure S on every byte string — accept/reject, scheme, host incl. [IPv6], "
             "port <= 65535 or the scheme's default, path, query, well-formed escapes (split_uri_eq_spec, "
-            "split_uri_rejects_malformed); coap_uri_into_optlist emits exactly RFC 7252 §6.4 steps 5-9's options — Uri-Host "
+            "split_uri_rejects_malformed) and S, hence libcoap, accepts every URI text composed from a table scheme, a host or "
+            "bracketed IPv6 literal, an optional port <= 65535 and a well-formed path/query tail and returns those parts "
+            "(uri_recognised); coap_uri_into_optlist emits exactly RFC 7252 §6.4 steps 5-9's options — Uri-Host "
             "unless the host is the destination literal, Uri-Port unless default, Uri-Path / Uri-Query per segment "
             "(uri_into_optlist_eq_spec, uri_to_options_eq_spec, uri_options_defined); coap_path_into_optlist / "
             "coap_query_into_optlist equal the RFC splitting on every string with well-formed escapes (split_path_eq_spec, "
@@ -37,7 +39,7 @@ NAMESPACE = "Coap.C16"
 REQUIRED_THEOREMS = ["escape_tables_match_rfc", "get_uri_path_eq_spec", "get_query_eq_spec", "uri_path_injective",
                      "query_injective", "path_feeds_back", "query_feeds_back", "split_path_eq_spec",
                      "split_query_eq_spec", "decode_once", "dot_segments_never_emitted", "no_overread",
-                     "split_uri_eq_spec", "split_uri_rejects_malformed", "split_uri_eq_spec_instances",
+                     "split_uri_eq_spec", "split_uri_rejects_malformed", "split_uri_eq_spec_instances", "uri_recognised",
                      "split_path_buf_eq_spec", "split_query_buf_eq_spec", "split_buf_eq_spec_3n",
                      "split_buf_documented_bound", "split_buf_never_overflows", "split_buf_truncation", "split_buf_omits_only",
                      "uri_into_optlist_eq_spec", "uri_to_options_eq_spec", "uri_options_defined",
